@@ -35,10 +35,11 @@ type CarrierCfg struct {
 
 // Carrier implements tunnelpb.TunnelServiceClient over in-memory streams.
 type Carrier struct {
-	W    *World
-	Name string
-	Svc  tunnelpb.TunnelServiceServer
-	Cfg  CarrierCfg
+	Intercept bool // forward opens pass through a metadata-adding client stream interceptor
+	W         *World
+	Name      string
+	Svc       tunnelpb.TunnelServiceServer
+	Cfg       CarrierCfg
 
 	// legacy views: remove the grpctunnel-negotiate header in one direction
 	StripReqNegotiate  bool
@@ -135,6 +136,12 @@ func (car *Carrier) open(ctx context.Context, reverse bool) *Conn {
 	car.W.ConnMeta[c.ID] = car.Meta
 	car.mu.Unlock()
 
+	if !reverse && car.Intercept {
+		// what a client stream interceptor of the stub does: the call goes out
+		// with more metadata than the caller's context had, visible only
+		// through the stream's own context
+		ctx = metadata.AppendToOutgoingContext(ctx, "sim-intercepted", "by-the-stub")
+	}
 	c.cliCtx, c.cliCancel = context.WithCancel(context.WithValue(ctx, simrt.OrderKey{}, int64(c.ID)))
 	md, _ := metadata.FromOutgoingContext(ctx)
 	c.ReqMD = md.Copy()
